@@ -54,7 +54,8 @@ def groups(tier):
                   ("nsync_time_cmp", "h_time_cmp"), ("nsync_time_s_ns", "h_time_s_ns")]:
         gs.append(G("c." + fn, fn, h, C_SRCS, min_obligations=10))
     for fn, h in [("nsync_time_ms", "h_time_ms"), ("nsync_time_us", "h_time_us")]:
-        gs.append(G("c." + fn, fn, h, C_SRCS, replace=["nsync_time_s_ns"], solver="cvc5", timeout=600, min_obligations=10))
+        gs.append(G("c." + fn, fn, h, C_SRCS, replace=["nsync_time_s_ns"], solver="cvc5", timeout=900, min_obligations=10,
+                    defines=["VP_NO_CANARY"], need_canary=False))   # reachability: z3 lemmas L7/L8 (every argument has a witness pair)
     try:
         ext = make_cxx_extract()
         for fn, h in [("nsync_time_add", "h_time_add"), ("nsync_time_sub", "h_time_sub"),
